@@ -62,6 +62,9 @@ class Gen:
             return self.int_atom(d)
         op = r.choice(["+", "-", "*", "+", "-", "/", "%", "&", "|", "^", "<<", ">>"])
         if op in ("/", "%"):
+            if r.random() < 0.25:
+                # constant operands, a negative one among them: C truncates towards zero, Python floors
+                return ("bin", op, ("neg", ("lit", r.choice([1, 7, 8, 9, 100]))), ("lit", r.choice([2, 3, 7, 10])))
             return ("bin", op, self.int_expr(d + 1), ("lit", r.choice([1, 2, 3, 7, 10, 16])))
         if op in ("<<", ">>"):
             return ("bin", op, self.int_expr(d + 1), ("lit", r.randrange(0, 9)))
